@@ -28,6 +28,7 @@ type lifeOp struct {
 	Coll string `json:"coll,omitempty"`
 	Dump bool   `json:"dump,omitempty"`
 	NoBackfill bool `json:"no_backfill,omitempty"` // start, dump: a dump feed that asks for no backfill has nothing to deliver and ends at once
+	Scoped bool `json:"scoped,omitempty"` // start: through Bucket.StartDCPFeed with Scopes naming the collection
 	ViaBucket bool `json:"via_bucket,omitempty"` // start: through Bucket.StartDCPFeed with no Scopes (the default collection's feed), whatever the handle has opened
 }
 
@@ -162,7 +163,7 @@ func execLife(in lifeInput, scratch string) (Case, error) {
 					}
 					var ds sgbucket.DataStore
 					var e error
-					if op.ViaBucket && op.Coll == "_default._default" {
+					if op.Scoped || (op.ViaBucket && op.Coll == "_default._default") {
 						// no collection object of the caller's is involved: the bucket looks its default collection up
 						exists, e, ds = true, nil, nil
 					} else if exists {
@@ -194,6 +195,10 @@ func execLife(in lifeInput, scratch string) (Case, error) {
 							}
 							starter := func(cb sgbucket.FeedEventCallbackFunc) error {
 								if ds == nil {
+									if op.Scoped {
+										n := dsName(op.Coll)
+										args.Scopes = map[string][]string{n.ScopeName(): {n.CollectionName()}}
+									}
 									return h.StartDCPFeed(ctxBg, args, cb, nil)
 								}
 								return ds.(*rosmar.Collection).StartDCPFeed(ctxBg, args, cb, nil)
@@ -416,7 +421,7 @@ func genLife(r *rand.Rand) lifeInput {
 			if r.Intn(6) == 0 {
 				sh = r.Intn(nh) // possibly a handle that has been closed: the start must fail and leave nothing behind
 			}
-			add(lifeOp{Kind: "start", F: nf, H: sh, Coll: cn, Dump: r.Intn(4) == 0, ViaBucket: cn == "_default._default" && r.Intn(2) == 0})
+			add(lifeOp{Kind: "start", F: nf, H: sh, Coll: cn, Dump: r.Intn(4) == 0, ViaBucket: cn == "_default._default" && r.Intn(2) == 0, Scoped: r.Intn(4) == 0})
 			feedColl[nf] = cn
 			nf++
 		case x < 11:
@@ -465,7 +470,7 @@ func genLife(r *rand.Rand) lifeInput {
 			open[h] = false
 			if r.Intn(3) == 0 {
 				// a feed of the default collection asked of the closed handle itself, which may never have opened it
-				add(lifeOp{Kind: "start", F: nf, H: h, Coll: "_default._default", Dump: r.Intn(4) == 0, ViaBucket: true})
+				add(lifeOp{Kind: "start", F: nf, H: h, Coll: "_default._default", Dump: r.Intn(4) == 0, ViaBucket: true, Scoped: r.Intn(2) == 0})
 				feedColl[nf] = "_default._default"
 				nf++
 			}
